@@ -198,8 +198,10 @@ namespace c18
     {
       static const double rs[3] = {0.05, 0.1, 0.2};
       jr = rs[t.range(0, 2)];
+      // 24 tape values tiled over the vertices (short tapes shrink faster)
+      double jt[24]; for(int q = 0; q < 24; ++q) jt[q] = t.real(1) / 8.0; // dyadic in [-1,1]
       std::vector<std::array<double, 3>> dlt(m.vtx.size());
-      for(auto& dd : dlt) for(int r = 0; r < dim; ++r) dd[(size_t)r] = t.real(1) / 8.0; // dyadic in [-1,1]
+      for(size_t v = 0; v < dlt.size(); ++v) for(int r = 0; r < dim; ++r) dlt[v][(size_t)r] = jt[(v * 3 + (size_t)r) % 24];
       auto base = m.vtx;
       const long double nominal = 1.0L;
       for(int tries = 0; tries < 8; ++tries)
@@ -278,22 +280,10 @@ namespace c18
   std::unique_ptr<MeshT<Shape_>> build_mesh(const MeshDesc& d)
   {
     constexpr int dim = Shape_::dimension;
-    std::set<std::vector<int>> edges, faces;
-    for(const auto& c : d.cells)
-    {
-      const int nl = (int)c.size();
-      if(d.simplex)
-      {
-        for(int a = 0; a < nl; ++a) for(int b = a + 1; b < nl; ++b) { std::vector<int> e{c[(size_t)a], c[(size_t)b]}; std::sort(e.begin(), e.end()); edges.insert(e); }
-        if(dim == 3) for(int o = 0; o < nl; ++o) { std::vector<int> f; for(int q = 0; q < nl; ++q) if(q != o) f.push_back(c[(size_t)q]); std::sort(f.begin(), f.end()); faces.insert(f); }
-      }
-      else
-      {
-        for(int a = 0; a < nl; ++a) for(int k = 0; k < dim; ++k) if(!((a >> k) & 1)) { std::vector<int> e{c[(size_t)a], c[(size_t)(a | (1 << k))]}; std::sort(e.begin(), e.end()); edges.insert(e); }
-        if(dim == 3) for(int k = 0; k < 3; ++k) for(int s = 0; s < 2; ++s) { std::vector<int> f; for(int b = 0; b < nl; ++b) if(((b >> k) & 1) == s) f.push_back(c[(size_t)b]); std::sort(f.begin(), f.end()); faces.insert(f); }
-      }
-    }
-    Index ne[4] = {Index(d.vtx.size()), Index(edges.size()), Index(dim == 3 ? faces.size() : d.cells.size()), Index(d.cells.size())};
+    // sub-dimensional entity counts are left at zero: RedundantIndexSetBuilder computes vertex-at-subshape sets only
+    // when they are empty (the protocol of tools/mesh_tools/mesh_indexer.cpp)
+    Index ne[4] = {Index(d.vtx.size()), 0, 0, 0};
+    ne[dim] = Index(d.cells.size());
     auto m = std::make_unique<MeshT<Shape_>>(ne);
     auto& vs = m->get_vertex_set();
     for(size_t i = 0; i < d.vtx.size(); ++i) for(int k = 0; k < dim; ++k) vs[Index(i)][k] = d.vtx[i][(size_t)k];
